@@ -36,6 +36,9 @@ def clock_obj(b, kinds='real'):
     b.ghost('et_before_wait', None)
 
     def read_keep_going(I_, obj, field):
+        # rely: other threads only clear the flag (Clock.stop); once seen False it stays False for this thread
+        if I_.ghost['stopped_seen']:
+            return False
         v = I_.fresh('bool', 'keep_going')
         if not I_.branch(v.t):
             I_.ghost['stopped_seen'] = True
@@ -64,7 +67,7 @@ c.ensures('restart', "self._cue_time == 0 and self._start_time == ghost('now') a
 
 # ---- pause_for: cumulative cue, never early, no wait when already due
 for dk in ('real', 'int'):
-    c = contract(C, 'Clock.pause_for', serves=['C10'], name='Clock.pause_for[%s]' % dk)
+    c = contract(C, 'Clock.pause_for', serves=['C10', 'C09'], name='Clock.pause_for[%s]' % dk)
     def _setup(b, case, dk=dk):
         clk, start, cue, now0 = clock_obj(b)
         d = b.sym(dk, 'delay')
@@ -76,7 +79,8 @@ for dk in ('real', 'int'):
            "ghost('now') >= _now0 and ghost('waits') >= _waits0",
            # every wake-up consumed so far was consumed while the delay was not yet due
            # once the delay is due no further wake-up is consumed (so: already due on entry => none at all)
-           "_now0 - self._start_time >= self._cue_time ==> ghost('waits') == _waits0"]
+           "_now0 - self._start_time >= self._cue_time ==> ghost('waits') == _waits0",
+           "not ghost('stopped_seen')"]       # C09: leaves at the first wake-up that finds the clock stopped
     c.loop(0, INV, modifies=['ghost:now', 'ghost:waits'])
     c.ensures('time-line-is-cumulative', 'self._cue_time == old(self._cue_time) + delay')
     c.ensures('start-untouched', 'self._start_time == old(self._start_time)')
@@ -85,7 +89,7 @@ for dk in ('real', 'int'):
     c.ensures('zero-delay-never-blocks-when-on-time', "delay == 0 and _now0 - old(self._start_time) >= old(self._cue_time) ==> ghost('waits') == _waits0")
 
 # ---- wait_until: returns at the first read that matches, then restarts the time line
-c = contract(C, 'Clock.wait_until', serves=['C10'])
+c = contract(C, 'Clock.wait_until', serves=['C10', 'C09'])
 def _setup(b, case):
     clk, start, cue, now0 = clock_obj(b)
     matchf = z3.Function('PatternMatches', z3.IntSort(), z3.IntSort(), z3.BoolSort())
@@ -94,10 +98,11 @@ def _setup(b, case):
     b.ghost('last_m', 0)
     return {'self': clk, 'time_pattern': tp, '_now0': now0, '_match': Builtin('match', lambda I_, a, k: mk(matchf(to_term(a[0], 'int'), to_term(a[1], 'int')), 'bool'))}
 c.setup(_setup)
-c.loop(0, ["ghost('now') >= _now0", "ghost('last_h') == hour and ghost('last_m') == minute"],
+c.loop(0, ["ghost('now') >= _now0", "ghost('last_h') == hour and ghost('last_m') == minute",
+           "not ghost('stopped_seen')"],      # C09: the loop is never continued after a wake-up that found the clock stopped
        modifies=['ghost:now', 'ghost:waits', 'ghost:last_h', 'ghost:last_m'], havoc_kinds={'hour': 'int', 'minute': 'int'})
-c.ensures('awaited-time-arrived', "_match(ghost('last_h'), ghost('last_m'))")
-c.ensures('time-line-restarts', "self._cue_time == 0 and self._start_time == ghost('now') and ghost('now') >= _now0")
+c.ensures('awaited-time-arrived', "not ghost('stopped_seen') ==> _match(ghost('last_h'), ghost('last_m'))")
+c.ensures('time-line-restarts', "not ghost('stopped_seen') ==> self._cue_time == 0 and self._start_time == ghost('now') and ghost('now') >= _now0")
 
 
 # ---- Machine._wait: 0 never blocks; seconds in logical/rgb, milliseconds in raw; a pattern waits for a time of day
